@@ -76,7 +76,7 @@ pub fn run_case(case: &Case, out: &mut Out) {
                     for (c, n) in sizes.iter().enumerate() {
                         // deterministic sprinkling of empty relative slots, as real primary indexes have
                         let gaps: Vec<usize> = (0..*n).map(|i| (i * 7 + c) % 3).collect();
-                        write_chunk(d.path(), &format!("{:05}", 10 + c * 3), &idx[pos..pos + n], &gaps);
+                        write_chunk(pool, d.path(), &format!("{:05}", 10 + c * 3), &idx[pos..pos + n], &gaps);
                         pos += n;
                     }
                 } else {
